@@ -115,6 +115,7 @@ var (
 	tX509    = unhx("a159c0a5e494a74a87b5ab155c2bf072")
 	tSHA256  = unhx("2616c4c14c509240aca941f936934328")
 	tSHA1    = unhx("12a56c8210cfc94ab187be01496631bd")
+	tSHA384  = unhx("07533effd09fc94885f18ad56c701e01")
 	tEXT     = unhx("ed8c2e45ffdf8c4bae015118862e682c")
 	tUnknown = []byte{0xde, 0xad, 0xbe, 0xef, 1, 2, 3, 4, 5, 6, 7, 8, 9, 10, 11, 12}
 )
